@@ -87,7 +87,7 @@ def c04(tier, seed):
 
 def c05(tier, seed):
     c = Check("C05", tier, seed)
-    c.rule = "MC: should_notify as coded vs vring_need_event for every (avail_idx, avail_event, last-checked) modulo 8, both flag values; negative configuration (non-wrap-aware compare) must yield a counterexample; Apalache (SMT): the same implication for all 16-bit index triples with batches <= 32768 (NotifyLemma.tla), the pre-fix comparison refuted; traces: should_notify / set_dev_notify / used_event observed in random histories"
+    c.rule = "MC: should_notify as coded vs vring_need_event for every (avail_idx, avail_event, last-checked) modulo 8, both flag values; negative configuration (non-wrap-aware compare) must yield a counterexample; Apalache (SMT): the same implication for all 16-bit index triples with batches <= 32768 (NotifyLemma.tla), the pre-fix comparison refuted; traces: should_notify / set_dev_notify / used_event observed in random histories; every driver's queues under the three device servicing policies (notification obligations after each internal should_notify; endless waits)"
     c.assumptions = VQ_ASSUME
     if tier == "thorough":
         mc(c, ["VQ_n2_notify_flag", "VQ_n2_notify_ev4", "VQ_n2_notify_ev"], tier, negative=["VQ_bug_naive_event_compare", "VQ_bug_no_rearm"])
@@ -98,6 +98,11 @@ def c05(tier, seed):
     c.add_mc(run_apalache("NotifyLemma", "Lemma"))
     c.add_mc(run_apalache("NotifyLemma", "LemmaBefore"), expect_violation=True)
     vq_family(c, tier, seed + 404, ["notify", "random"])
+    # "blocking request helpers ... never wait on a device that was not told about it": every
+    # driver under the three servicing policies (serve on notify only / poll / serve late, 1..40
+    # spins); a should_notify verdict of "must" has to be followed by the notification, and a
+    # driver left spinning on a device that has nothing to do is a Stuck event (no action)
+    usage_queues(c, tier, seed)
     return c.finish()
 
 
